@@ -27,8 +27,8 @@ RULE = (
     "options, no -c/-l/--contributor, unknown template). Non-trivial = at least one file failed or the command was a usage error; "
     "distinct = distinct plan digests"
 )
-EXPECTED_PROBES = ["annotate.comment_create_error", "annotate.missing_reuse_info", "annotate.force_dot_license_touch",
-                   "annotate.fallback_dot_license_touch", "annotate.skip_unrecognised", "annotate.skip_existing"]
+EXPECTED_PROBES = ["annotate.comment_create_error", "annotate.missing_reuse_info", "annotate.force_dot_license",
+                   "annotate.fallback_dot_license", "annotate.skip_unrecognised", "annotate.skip_existing"]
 SHRINK_CONTENT = False
 
 POISON = {"*/": "Evil */ Corp", "-->": "Evil --> Corp", "#}": "Evil #} Corp", "*)": "Evil *) Corp", "=#": "Evil =# Corp",
